@@ -509,4 +509,80 @@ def decodeRev (value : Nat) : List IntField → List Int
 /-- `Integer.decode` over the whole sequence -/
 def decodeInts (b : Bits) (fs : List IntField) : List Int := (decodeRev b.value fs.reverse).reverse
 
+/-! ### the event position of a DEN request between its acceptance and each repetition (round 5)
+
+`request_denm_sending` hands the request to a repetition thread that re-reads `request.event_position` for EVERY
+repetition, while the caller keeps (and may update in place) the dictionary it passed.  The position is a tree of
+three Python objects: the top-level dict (latitude, longitude) and the two nested records `positionConfidenceEllipse`
+and `altitude`.  `Share` says which objects of the request's position ARE the caller's objects; it is fixed by the
+kind of copy taken at acceptance (regenerated `DENM_REQ_SNAPSHOT`: 2 deep, 1 shallow, 0 none). -/
+structure EllRec where
+  major : Int
+  minor : Int
+  orient : Int
+  deriving Repr, DecidableEq
+
+/-- altitudeValue and the index of altitudeConfidence in its enumeration -/
+structure AltRec where
+  value : Int
+  conf : Nat
+  deriving Repr, DecidableEq
+
+structure ReqPos where
+  lat : Int
+  lon : Int
+  ell : EllRec
+  alt : AltRec
+  deriving Repr, DecidableEq
+
+/-- what the caller does with ITS dictionary after the request was accepted.  `ellInPlace e` / `altInPlace a`: any
+in-place mutation of the nested record (item assignment, `.update(...)`) after which its content is `e` / `a`;
+`ellRebind` / `altRebind`: the top-level key is bound to a NEW record -/
+inductive CallerOp where
+  | setLat (v : Int)
+  | setLon (v : Int)
+  | ellInPlace (e : EllRec)
+  | altInPlace (a : AltRec)
+  | ellRebind (e : EllRec)
+  | altRebind (a : AltRec)
+  deriving Repr, DecidableEq
+
+structure Share where
+  top : Bool
+  ell : Bool
+  alt : Bool
+  deriving Repr, DecidableEq
+
+structure SnapSt where
+  caller : ReqPos
+  req : ReqPos
+  sh : Share
+  deriving Repr, DecidableEq
+
+def shareOf (kind : Nat) : Share :=
+  if kind = 2 then ⟨false, false, false⟩ else if kind = 1 then ⟨false, true, true⟩ else ⟨true, true, true⟩
+
+/-- acceptance of a request whose position dictionary holds `p` -/
+def accept (kind : Nat) (p : ReqPos) : SnapSt := ⟨p, p, shareOf kind⟩
+
+def callerStep (s : SnapSt) : CallerOp → SnapSt
+  | .setLat v => { s with caller := { s.caller with lat := v }, req := if s.sh.top then { s.req with lat := v } else s.req }
+  | .setLon v => { s with caller := { s.caller with lon := v }, req := if s.sh.top then { s.req with lon := v } else s.req }
+  | .ellInPlace e => { s with caller := { s.caller with ell := e }, req := if s.sh.ell then { s.req with ell := e } else s.req }
+  | .altInPlace a => { s with caller := { s.caller with alt := a }, req := if s.sh.alt then { s.req with alt := a } else s.req }
+  | .ellRebind e =>
+    if s.sh.top then { s with caller := { s.caller with ell := e }, req := { s.req with ell := e } }
+    else { s with caller := { s.caller with ell := e }, sh := { s.sh with ell := false } }
+  | .altRebind a =>
+    if s.sh.top then { s with caller := { s.caller with alt := a }, req := { s.req with alt := a } }
+    else { s with caller := { s.caller with alt := a }, sh := { s.sh with alt := false } }
+
+/-- `hist` = the caller's operations before the 1st, between the 1st and 2nd, ... repetition; the result lists the
+position each repetition encodes -/
+def repsFrom (s : SnapSt) : List (List CallerOp) → List ReqPos
+  | [] => []
+  | ops :: rest => (ops.foldl callerStep s).req :: repsFrom (ops.foldl callerStep s) rest
+
+def repetitions (kind : Nat) (p : ReqPos) (hist : List (List CallerOp)) : List ReqPos := repsFrom (accept kind p) hist
+
 end FlexModel.Fac.Mapping
